@@ -419,3 +419,8 @@ extend('C17', 'Also: coverage rows written in place are separate objects.')
 extend('C20', 'Also: __eq__ walks the modified positions of both operands (or compares the key sets outright); copy()/dict()/'
               'mod_dict() share nothing with self one level further down (interval modification lists); a bound check on '
               'intervals accepts the half-open end == len(sequence) the parser produces.')
+extend('C17', 'Also: no look-up table of fragments / peaks is keyed by a measured value alone (m/z, mass, intensity).')
+extend('C13', 'Also: the conflict mode of the static builder is evaluated with the module-level list of valid modes known, '
+              'through helpers that return on part of their paths.')
+extend('C04', 'Also: the per-site loss list may be built with repeat(loss, len(findall(..))); rules about fragment() fail '
+              'closed when the series builders are not called from it in a form that is read.')
